@@ -441,12 +441,22 @@ func c14r4(p *Program, r *Report) {
 		for _, e := range p.GraphOf(kf).Exits() {
 			if rs, ok := e.Node.(*ast.ReturnStmt); ok {
 				for _, res := range rs.Results {
-					ast.Inspect(res, func(n ast.Node) bool {
-						if id, ok := n.(*ast.Ident); ok {
-							used[info.Uses[id]] = true
-						}
-						return true
-					})
+					// through the locals the result is built from (parts := [...]string{a, b, c}; Join(parts[:], ""))
+					var visit func(e ast.Node, depth int)
+					visit = func(e ast.Node, depth int) {
+						ast.Inspect(e, func(n ast.Node) bool {
+							if id, ok := n.(*ast.Ident); ok {
+								used[info.Uses[id]] = true
+								if depth < 3 {
+									if d := localDef(info, kf, id); d != nil {
+										visit(d, depth+1)
+									}
+								}
+							}
+							return true
+						})
+					}
+					visit(res, 0)
 				}
 			}
 		}
@@ -706,6 +716,22 @@ func c14r7(p *Program, r *Report) {
 	if add != nil {
 		info := add.Pkg.TypesInfo
 		found := false
+		// the recency list: the field of the cache that is a *list.List, whatever it is called
+		listField := "ll"
+		if add.Decl.Recv != nil && len(add.Decl.Recv.List) == 1 {
+			if rt := info.TypeOf(add.Decl.Recv.List[0].Type); rt != nil {
+				if pt, isP := rt.(*types.Pointer); isP {
+					rt = pt.Elem()
+				}
+				if st, isS := rt.Underlying().(*types.Struct); isS {
+					for i := 0; i < st.NumFields(); i++ {
+						if strings.HasSuffix(st.Field(i).Type().String(), "container/list.List") {
+							listField = st.Field(i).Name()
+						}
+					}
+				}
+			}
+		}
 		// an eviction call at a point where the list is known to be longer than (or as long as) MaxEntries
 		facts := p.GraphOf(add).GuardFacts()
 		for _, c := range callsIn(add.Decl.Body) {
@@ -720,7 +746,7 @@ func c14r7(p *Program, r *Report) {
 			if add.Decl.Recv != nil && len(add.Decl.Recv.List) == 1 && len(add.Decl.Recv.List[0].Names) == 1 {
 				rn := add.Decl.Recv.List[0].Names[0].Name
 				maxE, err1 := parser.ParseExpr(rn + ".MaxEntries")
-				lenE, err2 := parser.ParseExpr(rn + ".ll.Len()")
+				lenE, err2 := parser.ParseExpr(rn + "." + listField + ".Len()")
 				if err1 == nil && err2 == nil {
 					d := newDBM(p.GraphOf(add), f, nil)
 					if d.leExpr(maxE, 0, lenE, 0) {
@@ -730,10 +756,10 @@ func c14r7(p *Program, r *Report) {
 			}
 			for k, v := range f.m {
 				ks := strings.ReplaceAll(k, " ", "")
-				if v && strings.HasSuffix(ks, ".MaxEntries<"+strings.TrimSuffix(strings.SplitN(ks, ".MaxEntries<", 2)[0], "")+".ll.Len()") && strings.Contains(ks, ".MaxEntries<") {
+				if v && strings.HasSuffix(ks, ".MaxEntries<"+strings.TrimSuffix(strings.SplitN(ks, ".MaxEntries<", 2)[0], "")+"."+listField+".Len()") && strings.Contains(ks, ".MaxEntries<") {
 					found = true
 				}
-				if !v && strings.Contains(ks, ".ll.Len()<") && strings.HasSuffix(ks, ".MaxEntries") {
+				if !v && strings.Contains(ks, "."+listField+".Len()<") && strings.HasSuffix(ks, ".MaxEntries") {
 					found = true
 				}
 			}
